@@ -65,7 +65,7 @@ End MapAccLemmas.
 (* ------------------------------------------------------------------ relations used by the frame proofs *)
 (* a location may have been rewritten only if its mapping id satisfies P; its key never changes *)
 Definition loc_rel (P : Z -> Prop) (l l' : location) : Prop :=
-  loc_key l' = loc_key l /\ (l' = l \/ P (l_mapping l)).
+  loc_key l' = loc_key l /\ (l' = l \/ (P (l_mapping l) /\ l_lines l' <> [])).
 (* a mapping may have been rewritten only under force or when it had no function names *)
 Definition map_rel (force : bool) (m m' : mapping) : Prop :=
   map_key m' = map_key m /\ (m' = m \/ force = true \/ m_hasfn m = false).
@@ -80,8 +80,8 @@ Proof. split; auto. Qed.
 Lemma loc_rel_trans P a b c : loc_rel P a b -> loc_rel P b c -> loc_rel P a c.
 Proof.
   intros [K1 H1] [K2 H2]. split; [congruence|].
-  destruct H1 as [E1|P1]; [|right; exact P1]. subst b.
-  destruct H2 as [E2|P2]; [left; exact E2 | right; exact P2].
+  destruct H1 as [E1|[P1 N1]]; [subst b; exact H2|].
+  right. split; [exact P1|]. destruct H2 as [->|[_ N2]]; assumption.
 Qed.
 Lemma locs_rel_refl P l : Forall2 (loc_rel P) l l.
 Proof. apply Forall2_refl. apply loc_rel_refl. Qed.
@@ -127,39 +127,43 @@ Proof.
   split; [congruence | eapply grows_trans; eauto].
 Qed.
 
+Lemma mapacc_nonnil {St A B} (f : St -> A -> St * B) s l : is_nil l = false -> snd (mapacc f s l) <> [].
+Proof. destruct l; simpl; [discriminate | intros _; discriminate]. Qed.
+
 Lemma sym_loc_facts s l :
   map_key (q_m (fst (sym_loc s l))) = map_key (q_m s) /\
   grows (q_new s) (q_new (fst (sym_loc s l))) /\
   loc_key (snd (sym_loc s l)) = loc_key l /\
-  (snd (sym_loc s l) = l \/ l_mapping l = m_id (q_m s)).
+  (snd (sym_loc s l) = l \/ (l_mapping l = m_id (q_m s) /\ l_lines (snd (sym_loc s l)) <> [])).
 Proof.
   unfold sym_loc. destruct (l_mapping l =? m_id (q_m s)) eqn:E; cbn [negb].
   2:{ cbn [fst snd]. repeat split; auto. apply grows_refl. }
   apply Z.eqb_eq in E.
-  destruct (a_err (fst (ask (q_orc s) (CSourceLine (l_addr l)))) || is_nil (a_frames (fst (ask (q_orc s) (CSourceLine (l_addr l)))))).
+  destruct (a_err (fst (ask (q_orc s) (CSourceLine (l_addr l)))) || is_nil (a_frames (fst (ask (q_orc s) (CSourceLine (l_addr l)))))) eqn:EN.
   - cbn [fst snd q_m q_new]. repeat split; auto. apply grows_refl.
-  - cbn [fst snd q_m q_new].
+  - cbn [fst snd q_m q_new]. apply orb_false_iff in EN. destruct EN as [_ EN].
     match goal with |- context [mapacc sym_frame ?s0 ?frs] => destruct (sym_frames_facts frs s0) as [K G] end.
     cbn [q_m q_new] in K, G. repeat split; auto.
+    right. split; [exact E|]. cbn [set_lines l_lines]. apply mapacc_nonnil. exact EN.
 Qed.
 
 (* the loop of symbolizeOneMapping over all locations *)
 Lemma sym_locs_facts locs : forall s,
   let r := mapacc sym_loc s locs in
   map_key (q_m (fst r)) = map_key (q_m s) /\ grows (q_new s) (q_new (fst r)) /\
-  Forall2 (fun l l' => loc_key l' = loc_key l /\ (l' = l \/ l_mapping l = m_id (q_m s))) locs (snd r).
+  Forall2 (fun l l' => loc_key l' = loc_key l /\ (l' = l \/ (l_mapping l = m_id (q_m s) /\ l_lines l' <> []))) locs (snd r).
 Proof.
   intros s.
   pose (I := fun s' : lst => map_key (q_m s') = map_key (q_m s)).
   pose (T := fun a b : lst => grows (q_new a) (q_new b)).
   destruct (mapacc_inv sym_loc I T
-             (fun l l' => loc_key l' = loc_key l /\ (l' = l \/ l_mapping l = m_id (q_m s))) locs) with (s := s)
+             (fun l l' => loc_key l' = loc_key l /\ (l' = l \/ (l_mapping l = m_id (q_m s) /\ l_lines l' <> []))) locs) with (s := s)
     as [HI [HT HR]]; subst I T; cbn beta.
   - intros. apply grows_refl.
   - intros a b c. apply grows_trans.
   - intros s' l _ Hs'. destruct (sym_loc_facts s' l) as [K [G [LK LE]]].
     repeat split; try congruence; auto.
-    destruct LE as [LE|LE]; [now left | right].
+    destruct LE as [LE|[LE N]]; [now left | right]. split; [|exact N].
     rewrite LE. unfold map_key in Hs'. congruence.
   - reflexivity.
   - cbn zeta. auto.
@@ -188,7 +192,7 @@ Proof.
   { destruct force; [now left | right]. cbn in Eforce. destruct (m_hasfn m); [discriminate | reflexivity]. }
   split; [split; [exact K | right; exact Hforce] | split; [exact G|]].
   eapply Forall2_impl; [|exact F]. intros l l' [LK LE]. split; [exact LK|].
-  destruct LE as [LE|LE]; [now left | right; split; assumption].
+  destruct LE as [LE|[LE N]]; [now left | right; split; [split; assumption | exact N]].
 Qed.
 
 (* ------------------------------------------------------------------ whole local phase *)
@@ -210,17 +214,19 @@ Proof.
   - intros s m Hin _. destruct (local_mapping_facts force http s m) as [M [_ F]].
     split; [exact I | split; [|exact M]].
     eapply Forall2_impl; [|exact F]. intros l l' [LK LE]. split; [exact LK|].
-    destruct LE as [LE|LE]; [now left | right]. eapply touchable_of_step; eauto.
+    destruct LE as [LE|[LE N]]; [now left | right]. split; [eapply touchable_of_step; eauto | exact N].
   - exact I.
   - cbn [g_locs] in HT. split; [exact HR | split; [apply grows_app | exact HT]].
 Qed.
 
 (* ------------------------------------------------------------------ symbolz *)
 Lemma apply_line_rel mid lines l :
-  loc_key (apply_line mid lines l) = loc_key l /\ (apply_line mid lines l = l \/ l_mapping l = mid).
+  loc_key (apply_line mid lines l) = loc_key l /\
+  (apply_line mid lines l = l \/ (l_mapping l = mid /\ l_lines (apply_line mid lines l) <> [])).
 Proof.
   unfold apply_line. destruct (l_mapping l =? mid) eqn:E; [|auto].
-  apply Z.eqb_eq in E. destruct (find _ lines); auto.
+  apply Z.eqb_eq in E. destruct (find _ lines); [|auto].
+  split; [reflexivity | right]. split; [exact E | cbn [set_lines l_lines]; discriminate].
 Qed.
 
 Lemma parse_line_grows off s l s' : parse_line off s l = Some s' -> grows (ps_funs s) (ps_funs s').
@@ -241,11 +247,11 @@ Qed.
 Lemma symbolize_mapping_facts source off m s :
   let s' := symbolize_mapping source off m s in
   grows (r_funs s) (r_funs s') /\
-  Forall2 (fun l l' => loc_key l' = loc_key l /\ (l' = l \/ l_mapping l = m_id m)) (r_locs s) (r_locs s').
+  Forall2 (fun l l' => loc_key l' = loc_key l /\ (l' = l \/ (l_mapping l = m_id m /\ l_lines l' <> []))) (r_locs s) (r_locs s').
 Proof.
   cbn zeta. unfold symbolize_mapping.
   assert (Same : forall locs : list location,
-             Forall2 (fun l l' => loc_key l' = loc_key l /\ (l' = l \/ l_mapping l = m_id m)) locs locs).
+             Forall2 (fun l l' => loc_key l' = loc_key l /\ (l' = l \/ (l_mapping l = m_id m /\ l_lines l' <> []))) locs locs).
   { intros locs. apply Forall2_refl. auto. }
   destruct (query_addrs (m_id m) off (r_locs s)) as [[|q0 q]|]; cbn [r_funs r_locs];
     try (split; [apply grows_refl | apply Same]).
@@ -273,7 +279,7 @@ Proof.
   assert (F' : Forall2 (loc_rel P) (r_locs s) (r_locs (symbolize_mapping (symz (fst e))
                  (wrap_i64 (wrap_i64 (snd e) - wrap_i64 (m_start m))) m s))).
   { eapply Forall2_impl; [|exact F]. intros l l' [LK LE]. split; [exact LK|].
-    destruct LE as [LE|LE]; [now left | right; split; assumption]. }
+    destruct LE as [LE|[LE N]]; [now left | right; split; [split; assumption | exact N]]. }
   destruct (r_err (symbolize_mapping _ _ _ _)); cbn [fst snd].
   - split; [apply map_rel_refl | split; assumption].
   - split; [split; [reflexivity | right; exact Hforce] | split; assumption].
@@ -294,7 +300,7 @@ Proof.
   - intros s m Hin _. destruct (remote_mapping_facts force srcs symz s m) as [M [G F]].
     split; [exact I | split; [split; [exact G|] | exact M]].
     eapply Forall2_impl; [|exact F]. intros l l' [LK LE]. split; [exact LK|].
-    destruct LE as [LE|LE]; [now left | right]. eapply touchable_of_step; eauto.
+    destruct LE as [LE|[LE N]]; [now left | right]. split; [eapply touchable_of_step; eauto | exact N].
   - exact I.
   - cbn [r_locs r_funs] in HT. destruct HT as [G L]. auto.
 Qed.
@@ -411,7 +417,7 @@ Proof.
     split; [eapply grows_trans; eauto|].
     eapply locs_rel_trans; [exact L1|].
     eapply Forall2_impl; [|exact L2]. intros l l' [LK LE]. split; [exact LK|].
-    destruct LE as [LE|LE]; [now left | right]. eapply touchable_back; eauto. }
+    destruct LE as [LE|[LE N]]; [now left | right]. split; [eapply touchable_back; eauto | exact N]. }
   clearbody re. clear S1. destruct S2 as [M2 [[ext G2] L2]].
   destruct (snd re).
   - intros H; inversion H; subst. split; [exact M2 | split; [exact L2|]].
@@ -494,7 +500,7 @@ Proof.
   rewrite (not_requested_no_force _ HF) in M, L. cbn [w_of w_maps w_locs] in M, L.
   split; cbn [with_w p_mapping p_location].
   - eapply Forall2_impl; [|exact M]. intros m m' [_ [R|[R|R]]] Hfn; [exact R | discriminate | congruence].
-  - eapply Forall2_impl; [|exact L]. intros l l' [_ [R|R]] Hp; [exact R|].
+  - eapply Forall2_impl; [|exact L]. intros l l' [_ [R|[R _]]] Hp; [exact R|].
     destruct R as [R|[m [Hin [Hid Hfn]]]]; [discriminate|].
     specialize (Hp m Hin Hid). congruence.
 Qed.
@@ -564,4 +570,15 @@ Proof.
       { symmetry. apply Z.mod_unique with (q := 1); lia. }
       rewrite H. replace (a + off - 18446744073709551616 <? a) with true by lia.
       replace ((0 <=? a + off) && (a + off <? 18446744073709551616)) with false by lia. reflexivity.
+Qed.
+
+(* ---- lines are attached, never removed *)
+Lemma symbolize_lines_attached_lemma mode e script p p' err calls :
+  symbolize mode e script p = Out p' err calls ->
+  Forall2 (fun l l' => l' = l \/ l_lines l' <> []) (p_location p) (p_location p').
+Proof.
+  unfold symbolize. destruct (symbolize_w mode e (w_of p script)) as [w' err'|] eqn:E; [|discriminate].
+  intros H; inversion H; subst.
+  destruct (symbolize_w_shape _ _ _ _ _ E) as [_ [L _]]. cbn [w_of w_locs] in L. cbn [with_w p_location].
+  eapply Forall2_impl; [|exact L]. intros l l' [_ [R|[_ R]]]; [now left | now right].
 Qed.
